@@ -208,7 +208,7 @@ Definition c15_ok (c : cfg) (ls : links) (ing : ingress) (allup impl : result)
 (** * Cases of the correspondence check *)
 Inductive hev :=
 | HBfd (l : N) (o : option (list N))   (* None = the detection time passed without a packet *)
-       (up : bool)                     (* Link.IsUp() observed afterwards *)
+       (up : option bool)              (* Link.IsUp() observed afterwards; None = not looked at (the packet only arms a short detection time right before the expiry that follows) *)
 | HPkt (now : N) (ing : ingress) (k : N)   (* k: index into the packets of the case *)
        (impl : result) (fwd : option N) (reply : option (list N)).
 
@@ -237,7 +237,8 @@ Definition hev_step (c : cfg) (macs : list mac_entry) (pkts : list pkt) (ls : li
   match e with
   | HBfd l o up =>
     match op_of o with
-    | Some op => let ls' := step_links ls l op in (ls', (Bool.eqb (link_up ls' l) up, true))
+    | Some op => let ls' := step_links ls l op in
+                 (ls', (match up with Some b => Bool.eqb (link_up ls' l) b | None => true end, true))
     | None => (ls, (false, true))
     end
   | HPkt now ing k impl fwd reply =>
@@ -270,7 +271,7 @@ Fixpoint with_model_obs (c : cfg) (macs : list mac_entry) (pkts : list pkt) (ls 
   | HBfd l o up :: t =>
     match op_of o with
     | Some op => let ls' := step_links ls l op in
-                 HBfd l o (link_up ls' l) :: with_model_obs c macs pkts ls' t
+                 HBfd l o (Some (link_up ls' l)) :: with_model_obs c macs pkts ls' t
     | None => HBfd l o up :: with_model_obs c macs pkts ls t
     end
   | HPkt now ing k impl fwd reply :: t =>
